@@ -13,6 +13,8 @@ int main(int argc, char** argv) {
         Spec s; s.kind = K_FP;
         s.n = (uint32_t)r.range(64, M.thorough() ? 256 : 160);
         s.nb = 1;
+        // one case in sixteen on a mesh of 300-2100 cells
+        if ((c / 8) % 16 == 5) { static const uint32_t big_n[] = {300, 520, 1030, 2100}; s.n = big_n[(c / 128) % 4]; M.ev("cases_on_meshes_beyond_256_cells"); }
         s.fptype = (int)(c % 4); s.deriv = ((c / 4) % 2) ? 3 : 4;
         if (r.chance(0.5)) s.shifty = r.uni(-3, 3);
         double d = s.pqsize / (s.n - 1);
